@@ -135,6 +135,39 @@ fn gen_index(ctx: &mut Ctx) -> String {
     format!("c36.index {} {} | {}", colw, expected, items.join(" ; "))
 }
 
+/// long insert streams: many more inserts than the index was sized for, every stored key looked up
+/// right after its insert and again at the end (sizing/rehash/rebuild thresholds live here).
+fn gen_index_long(ctx: &mut Ctx) -> String {
+    let probe = BloomFilter::with_params(64, 1);
+    let cols: Vec<usize> = vec![0];
+    let expected = *ctx.pick(&[0usize, 1, 10, 100, 101, 150]);
+    let n = 2 * expected.max(100) + 5 + ctx.below(260);
+    let hp = |t: &Tuple, cols: &[usize]| probe.verif_hash_pair(&t.from_indices(cols));
+    let mut stored: Vec<Tuple> = vec![];
+    let mut items = vec![];
+    for i in 0..n {
+        let dup = !stored.is_empty() && ctx.chance(1, 12);
+        let t = if dup { ctx.pick(&stored).clone() } else { Tuple::new(vec![Value::Int64(1000 + i as i64), Value::Int64(ctx.range(0, 3))]) };
+        let (a, b) = hp(&t, &cols);
+        items.push(format!("ins {} {} {}", tuple_to_wire(&t), a, b));
+        let k = t.from_indices(&cols); let (ka, kb) = probe.verif_hash_pair(&k); let kw = tuple_to_wire(&k);
+        stored.push(t);
+        // look the key up straight away (every insert near a power-of-two multiple of the sizing, else 1 in 6)
+        if i % 100 >= 97 || i % 100 <= 2 || ctx.chance(1, 6) {
+            items.push(match ctx.below(3) { 0 => format!("mc {kw} {ka} {kb}"), 1 => format!("getb {kw} {ka} {kb}"), _ => format!("probe {kw} {ka} {kb}") });
+        }
+        if ctx.chance(1, 40) && stored.len() > 3 { let j = ctx.below(stored.len()); let r = stored.remove(j); items.push(format!("rem {}", tuple_to_wire(&r))); }
+    }
+    for (j, t) in stored.iter().enumerate() {
+        if j % 7 == 0 || j + 12 >= stored.len() {
+            let k = t.from_indices(&cols); let (ka, kb) = probe.verif_hash_pair(&k);
+            items.push(format!("getb {} {} {}", tuple_to_wire(&k), ka, kb));
+        }
+    }
+    ctx.count("index.long-stream");
+    format!("c36.index 0 {} | {}", expected, items.join(" ; "))
+}
+
 pub fn gen(ctx: &mut Ctx) -> Vec<String> {
     let mut out = vec![];
     // fixed degenerate shapes first (every with_params corner × a tiny history)
@@ -146,6 +179,7 @@ pub fn gen(ctx: &mut Ctx) -> Vec<String> {
     } }
     for _ in 0..ctx.budget(700, 8000) { out.push(gen_bloom(ctx)); }
     for _ in 0..ctx.budget(900, 10000) { out.push(gen_index(ctx)); }
+    for _ in 0..ctx.budget(8, 60) { out.push(gen_index_long(ctx)); }
     // malformed stream
     out.push("c36.bloom wp:64 | c".into());
     out.push("c36.bloom wp:64:1 | i n=1 5".into());
